@@ -10,7 +10,9 @@ C19 line protocol.  One line = one case.
   in <cps> <cps> <cps> <key>   indent(text, margin, newline, key) with key = bool (the default) / all (always true)
                                -> text (code points)
   jl <b|t> <0|1> <hex>         JSONLIterator forward (binary / text-mode file) and reverse,
-                               ignore_errors 0/1 -> `F<objs>[!Err] R<objs>[!Err]`
+                               ignore_errors 0/1 -> `F<objs>[!Err] R<objs>[!Err]`; with ignore_errors 0 followed by
+                               ` A<results> B<results>`: every next() result forward / reverse, the iteration
+                               being resumed after each error (`!Err` in place)
   js <0|1> <target> <hex>      JSONLIterator(text-mode file, ignore_errors, rel_seek) forward and reverse, with
                                target = int(size * rel_seek), or `zero` for rel_seek=0.0
                                -> `F<objs>[!Err] R<objs>[!Err]`, or `hang`
@@ -112,6 +114,13 @@ def showRun (r : List Obj × Option String) : String :=
   (if r.1.isEmpty then "[]" else ",".intercalate (r.1.map showObj)) ++
   (match r.2 with | some e => "!" ++ e | none => "")
 
+/-- every `next()` result, errors in place: `i1,!JSONDecodeError,i20` -/
+def showOutcomes (r : List (Except String Obj)) : String :=
+  if r.isEmpty then "[]" else ",".intercalate (r.map fun x =>
+    match x with
+    | .ok o => showObj o
+    | .error e => "!" ++ e)
+
 def handle (line : String) : String :=
   match words line with
   | ["sl", t] =>
@@ -151,7 +160,11 @@ def handle (line : String) : String :=
       -- 4096 is the block size JSONLIterator uses; by `C19.jsonl_blocksize_independent` any other
       -- block size gives the same result
       let rev := jsonlReverse parseMini ignore 4096 c
-      "F" ++ showRun fwd ++ " R" ++ showRun rev
+      let fls := if mode == "b" then fileLinesB c else fileLinesT false c
+      -- strict mode: also the results of going on calling next() after each error
+      "F" ++ showRun fwd ++ " R" ++ showRun rev ++
+        (if ignore then "" else " A" ++ showOutcomes (outcomes parseMini false fls) ++
+          " B" ++ showOutcomes (outcomes parseMini false (reverseIterLines c 4096)))
     | none => "bad-op"
   | ["js", ign, "zero", c] =>
     match hex? c with
